@@ -43,6 +43,18 @@ def _first_nul(ctx, cells):
     return None
 
 
+def _first_only(holder):
+    """history: an earlier walk that stopped at the first note (the usual build-id lookup); the full listing afterwards is unaffected"""
+    it = holder.iter_notes()
+    try:
+        next(it)
+    except StopIteration:
+        pass
+    except Exception:
+        return
+    del it
+
+
 def _iter(ctx, elf, off, size, via):
     N = ctx.lib('elf.notes')
     if via == 'func':
@@ -52,10 +64,12 @@ def _iter(ctx, elf, off, size, via):
         hdr = {'sh_offset': off, 'sh_size': size, 'sh_type': 'SHT_NOTE', 'sh_flags': 0, 'sh_addralign': 4}
         elf.structs  # noqa
         sec = SEC.NoteSection(hdr, '.note', elf)
+        _first_only(sec)
         return ctx.drain(sec.iter_notes())
     SEG = ctx.lib('elf.segments')
     hdr = {'p_offset': off, 'p_filesz': size, 'p_type': 'PT_NOTE'}
     seg = SEG.NoteSegment(hdr, elf.stream, elf)
+    _first_only(seg)
     return ctx.drain(seg.iter_notes())
 
 
